@@ -69,6 +69,13 @@ func (r *Run) Param(k string, v interface{}) {
 		r.Res.Params = map[string]interface{}{}
 	}
 	r.Res.Params[k] = v
+	// also on disk at once: if the process dies the driver still knows what ran
+	if out := os.Getenv("VERIF_OUT"); out != "" {
+		if f, err := os.OpenFile(out+".params", os.O_APPEND|os.O_CREATE|os.O_WRONLY, 0o644); err == nil {
+			fmt.Fprintf(f, "%s=%v\n", k, v)
+			f.Close()
+		}
+	}
 }
 func (r *Run) Note(f string, a ...interface{}) { r.Res.Notes = append(r.Res.Notes, fmt.Sprintf(f, a...)) }
 
